@@ -94,6 +94,7 @@ type Engine struct {
 	deadlineAt   int64
 	ctxT         types.Type
 	rtypeT       types.Type
+	uninitGlobal []bool // by -id: global whose initialiser lives in a package init the engine does not run
 	rtypes       map[string]types.Type // reflect.Type payloads (canonical string -> type)
 	bgCtx        int
 	logEventObj  [7]int
@@ -125,6 +126,7 @@ func NewEngine(p *Program) *Engine {
 		constCache: map[*ssa.Const]Value{},
 		globalIDs:  map[*ssa.Global]int{},
 		globalByID: []*ssa.Global{nil},
+		uninitGlobal: []bool{false},
 		pcNodes:    map[[2]int]*PCNode{},
 		feasCache:  map[[2]int]Result{},
 		visited:    map[stateKey]bool{},
@@ -159,6 +161,7 @@ func (e *Engine) globalID(g *ssa.Global) int {
 	id := -len(e.globalByID)
 	e.globalByID = append(e.globalByID, g)
 	e.globalIDs[g] = id
+	e.uninitGlobal = append(e.uninitGlobal, e.p.needsInit[g])
 	return id
 }
 
